@@ -343,14 +343,18 @@ func (g *Syn) signature(d int) string {
 		ps = append(ps, p+g.typ(d))
 	}
 	s := "(" + strings.Join(ps, ", ") + ")"
-	switch g.n(5) {
-	case 0:
+	switch g.n(16) {
+	case 0, 1, 2:
 		s += " " + g.typ(d)
-	case 1:
+	case 3, 4, 5:
 		s += " (" + g.typ(d) + ", error)"
-	case 2:
+	case 6, 7, 8:
 		g.k("results:named")
 		s += " (" + g.lval() + " " + g.typ(d) + ", err error)"
+	case 9:
+		// an empty result list: legal, gofmt removes the parentheses, go/parser keeps an empty FieldList
+		g.k("results:empty-parens")
+		s += " ()"
 	}
 	return s
 }
